@@ -634,6 +634,10 @@ def run(ctx):
     # hash-table layouts and identity classes differ between seeds
     rnd.shuffle(items)
     ctx.log("pool of %d values" % len(items))
+    # design level (P-E): the oracle itself satisfies the laws on a small universe; StableSortPerm is the
+    # unique stable sort for all key sequences up to length 4
+    ctx.tlc_ok("C11MC", "C11MC.cfg", workers=4, timeout=1200, heap="4g")
+    ctx.log("design-level check of Values.tla passed")
     hdr, descs, recs, rows = matrix_records(ctx, items, BUILDS, "m")
     n = len(items)
     nrow = len(recs)
